@@ -962,3 +962,70 @@ package keeper
 //@   ensures[C12.ro_world_unchanged] (bankBal == old(bankBal) && bankSupply == old(bankSupply) && authVersion == old(authVersion) && evlog == old(evlog) && kvHas == old(kvHas) && kvVal == old(kvVal) && acctSeq == old(acctSeq) && acctExists == old(acctExists) && stakingVersion == old(stakingVersion) && sdbLogCount == old(sdbLogCount) && sdbLogAddr == old(sdbLogAddr) && sdbLogNTopics == old(sdbLogNTopics) && sdbLogT0 == old(sdbLogT0) && sdbLogT1 == old(sdbLogT1) && sdbLogT2 == old(sdbLogT2) && sdbLogT3 == old(sdbLogT3) && sdbLogData == old(sdbLogData))
 //@   ensures[C12.ro_distribution_unchanged] distVersion == old(distVersion)
 
+// the remaining read-only staking methods and the ten bech32 methods (pure computations)
+//@ func (e stakingCustomPrecompiledContractRoName) Execute(caller corevm.ContractRef, contractAddr common.Address, input []byte, env cpcExecutorEnv) (ret []byte, err error)
+//@   requires e.contract != nil
+//@   modifies nothing
+//@   ensures[C12.ro_world_unchanged] (bankBal == old(bankBal) && bankSupply == old(bankSupply) && authVersion == old(authVersion) && evlog == old(evlog) && kvHas == old(kvHas) && kvVal == old(kvVal) && acctSeq == old(acctSeq) && acctExists == old(acctExists) && stakingVersion == old(stakingVersion) && distVersion == old(distVersion) && sdbLogCount == old(sdbLogCount) && sdbLogAddr == old(sdbLogAddr) && sdbLogNTopics == old(sdbLogNTopics) && sdbLogT0 == old(sdbLogT0) && sdbLogT1 == old(sdbLogT1) && sdbLogT2 == old(sdbLogT2) && sdbLogT3 == old(sdbLogT3) && sdbLogData == old(sdbLogData))
+
+//@ func (e stakingCustomPrecompiledContractRoSymbol) Execute(caller corevm.ContractRef, contractAddr common.Address, input []byte, env cpcExecutorEnv) (ret []byte, err error)
+//@   requires e.contract != nil
+//@   modifies e.contract.cacheStakingMetadata
+//@   ensures[C12.ro_world_unchanged] (bankBal == old(bankBal) && bankSupply == old(bankSupply) && authVersion == old(authVersion) && evlog == old(evlog) && kvHas == old(kvHas) && kvVal == old(kvVal) && acctSeq == old(acctSeq) && acctExists == old(acctExists) && stakingVersion == old(stakingVersion) && distVersion == old(distVersion) && sdbLogCount == old(sdbLogCount) && sdbLogAddr == old(sdbLogAddr) && sdbLogNTopics == old(sdbLogNTopics) && sdbLogT0 == old(sdbLogT0) && sdbLogT1 == old(sdbLogT1) && sdbLogT2 == old(sdbLogT2) && sdbLogT3 == old(sdbLogT3) && sdbLogData == old(sdbLogData))
+
+//@ func (e stakingCustomPrecompiledContractRoDecimals) Execute(caller corevm.ContractRef, contractAddr common.Address, input []byte, env cpcExecutorEnv) (ret []byte, err error)
+//@   requires e.contract != nil
+//@   modifies e.contract.cacheStakingMetadata
+//@   ensures[C12.ro_world_unchanged] (bankBal == old(bankBal) && bankSupply == old(bankSupply) && authVersion == old(authVersion) && evlog == old(evlog) && kvHas == old(kvHas) && kvVal == old(kvVal) && acctSeq == old(acctSeq) && acctExists == old(acctExists) && stakingVersion == old(stakingVersion) && distVersion == old(distVersion) && sdbLogCount == old(sdbLogCount) && sdbLogAddr == old(sdbLogAddr) && sdbLogNTopics == old(sdbLogNTopics) && sdbLogT0 == old(sdbLogT0) && sdbLogT1 == old(sdbLogT1) && sdbLogT2 == old(sdbLogT2) && sdbLogT3 == old(sdbLogT3) && sdbLogData == old(sdbLogData))
+
+// (delegatedValidators is NOT under contract: its loop builds a result slice with append; the engine havocs the element heap of a loop-carried slice, so the frame of pre-existing []common.Address backings cannot be shown)
+//@ func (e stakingCustomPrecompiledContractRoDelegationOf) Execute(caller corevm.ContractRef, contractAddr common.Address, input []byte, env cpcExecutorEnv) (ret []byte, err error)
+//@   requires e.contract != nil
+//@   modifies nothing
+//@   ensures[C12.ro_world_unchanged] (bankBal == old(bankBal) && bankSupply == old(bankSupply) && authVersion == old(authVersion) && evlog == old(evlog) && kvHas == old(kvHas) && kvVal == old(kvVal) && acctSeq == old(acctSeq) && acctExists == old(acctExists) && stakingVersion == old(stakingVersion) && distVersion == old(distVersion) && sdbLogCount == old(sdbLogCount) && sdbLogAddr == old(sdbLogAddr) && sdbLogNTopics == old(sdbLogNTopics) && sdbLogT0 == old(sdbLogT0) && sdbLogT1 == old(sdbLogT1) && sdbLogT2 == old(sdbLogT2) && sdbLogT3 == old(sdbLogT3) && sdbLogData == old(sdbLogData))
+
+//@ func (e stakingCustomPrecompiledContractRoTotalDelegationOf) Execute(caller corevm.ContractRef, contractAddr common.Address, input []byte, env cpcExecutorEnv) (ret []byte, err error)
+//@   requires e.contract != nil
+//@   modifies nothing
+//@   ensures[C12.ro_world_unchanged] (bankBal == old(bankBal) && bankSupply == old(bankSupply) && authVersion == old(authVersion) && evlog == old(evlog) && kvHas == old(kvHas) && kvVal == old(kvVal) && acctSeq == old(acctSeq) && acctExists == old(acctExists) && stakingVersion == old(stakingVersion) && distVersion == old(distVersion) && sdbLogCount == old(sdbLogCount) && sdbLogAddr == old(sdbLogAddr) && sdbLogNTopics == old(sdbLogNTopics) && sdbLogT0 == old(sdbLogT0) && sdbLogT1 == old(sdbLogT1) && sdbLogT2 == old(sdbLogT2) && sdbLogT3 == old(sdbLogT3) && sdbLogData == old(sdbLogData))
+
+//@ func (e bech32CustomPrecompiledContractRoEncodeAddress) Execute(caller corevm.ContractRef, contractAddr common.Address, input []byte, env cpcExecutorEnv) (ret []byte, err error)
+//@   modifies nothing
+//@   ensures[C12.ro_world_unchanged] (bankBal == old(bankBal) && bankSupply == old(bankSupply) && authVersion == old(authVersion) && evlog == old(evlog) && kvHas == old(kvHas) && kvVal == old(kvVal) && acctSeq == old(acctSeq) && acctExists == old(acctExists) && stakingVersion == old(stakingVersion) && distVersion == old(distVersion) && sdbLogCount == old(sdbLogCount) && sdbLogAddr == old(sdbLogAddr) && sdbLogNTopics == old(sdbLogNTopics) && sdbLogT0 == old(sdbLogT0) && sdbLogT1 == old(sdbLogT1) && sdbLogT2 == old(sdbLogT2) && sdbLogT3 == old(sdbLogT3) && sdbLogData == old(sdbLogData))
+
+//@ func (e bech32CustomPrecompiledContractRoEncode32BytesAddress) Execute(caller corevm.ContractRef, contractAddr common.Address, input []byte, env cpcExecutorEnv) (ret []byte, err error)
+//@   modifies nothing
+//@   ensures[C12.ro_world_unchanged] (bankBal == old(bankBal) && bankSupply == old(bankSupply) && authVersion == old(authVersion) && evlog == old(evlog) && kvHas == old(kvHas) && kvVal == old(kvVal) && acctSeq == old(acctSeq) && acctExists == old(acctExists) && stakingVersion == old(stakingVersion) && distVersion == old(distVersion) && sdbLogCount == old(sdbLogCount) && sdbLogAddr == old(sdbLogAddr) && sdbLogNTopics == old(sdbLogNTopics) && sdbLogT0 == old(sdbLogT0) && sdbLogT1 == old(sdbLogT1) && sdbLogT2 == old(sdbLogT2) && sdbLogT3 == old(sdbLogT3) && sdbLogData == old(sdbLogData))
+
+//@ func (e bech32CustomPrecompiledContractRoEncodeBytes) Execute(caller corevm.ContractRef, contractAddr common.Address, input []byte, env cpcExecutorEnv) (ret []byte, err error)
+//@   modifies nothing
+//@   ensures[C12.ro_world_unchanged] (bankBal == old(bankBal) && bankSupply == old(bankSupply) && authVersion == old(authVersion) && evlog == old(evlog) && kvHas == old(kvHas) && kvVal == old(kvVal) && acctSeq == old(acctSeq) && acctExists == old(acctExists) && stakingVersion == old(stakingVersion) && distVersion == old(distVersion) && sdbLogCount == old(sdbLogCount) && sdbLogAddr == old(sdbLogAddr) && sdbLogNTopics == old(sdbLogNTopics) && sdbLogT0 == old(sdbLogT0) && sdbLogT1 == old(sdbLogT1) && sdbLogT2 == old(sdbLogT2) && sdbLogT3 == old(sdbLogT3) && sdbLogData == old(sdbLogData))
+
+//@ func (e bech32CustomPrecompiledContractRoDecode) Execute(caller corevm.ContractRef, contractAddr common.Address, input []byte, env cpcExecutorEnv) (ret []byte, err error)
+//@   modifies nothing
+//@   ensures[C12.ro_world_unchanged] (bankBal == old(bankBal) && bankSupply == old(bankSupply) && authVersion == old(authVersion) && evlog == old(evlog) && kvHas == old(kvHas) && kvVal == old(kvVal) && acctSeq == old(acctSeq) && acctExists == old(acctExists) && stakingVersion == old(stakingVersion) && distVersion == old(distVersion) && sdbLogCount == old(sdbLogCount) && sdbLogAddr == old(sdbLogAddr) && sdbLogNTopics == old(sdbLogNTopics) && sdbLogT0 == old(sdbLogT0) && sdbLogT1 == old(sdbLogT1) && sdbLogT2 == old(sdbLogT2) && sdbLogT3 == old(sdbLogT3) && sdbLogData == old(sdbLogData))
+
+//@ func (e bech32CustomPrecompiledContractRoAccountAddrPrefix) Execute(caller corevm.ContractRef, contractAddr common.Address, input []byte, env cpcExecutorEnv) (ret []byte, err error)
+//@   modifies nothing
+//@   ensures[C12.ro_world_unchanged] (bankBal == old(bankBal) && bankSupply == old(bankSupply) && authVersion == old(authVersion) && evlog == old(evlog) && kvHas == old(kvHas) && kvVal == old(kvVal) && acctSeq == old(acctSeq) && acctExists == old(acctExists) && stakingVersion == old(stakingVersion) && distVersion == old(distVersion) && sdbLogCount == old(sdbLogCount) && sdbLogAddr == old(sdbLogAddr) && sdbLogNTopics == old(sdbLogNTopics) && sdbLogT0 == old(sdbLogT0) && sdbLogT1 == old(sdbLogT1) && sdbLogT2 == old(sdbLogT2) && sdbLogT3 == old(sdbLogT3) && sdbLogData == old(sdbLogData))
+
+//@ func (e bech32CustomPrecompiledContractRoValidatorAddrPrefix) Execute(caller corevm.ContractRef, contractAddr common.Address, input []byte, env cpcExecutorEnv) (ret []byte, err error)
+//@   modifies nothing
+//@   ensures[C12.ro_world_unchanged] (bankBal == old(bankBal) && bankSupply == old(bankSupply) && authVersion == old(authVersion) && evlog == old(evlog) && kvHas == old(kvHas) && kvVal == old(kvVal) && acctSeq == old(acctSeq) && acctExists == old(acctExists) && stakingVersion == old(stakingVersion) && distVersion == old(distVersion) && sdbLogCount == old(sdbLogCount) && sdbLogAddr == old(sdbLogAddr) && sdbLogNTopics == old(sdbLogNTopics) && sdbLogT0 == old(sdbLogT0) && sdbLogT1 == old(sdbLogT1) && sdbLogT2 == old(sdbLogT2) && sdbLogT3 == old(sdbLogT3) && sdbLogData == old(sdbLogData))
+
+//@ func (e bech32CustomPrecompiledContractRoConsensusAddrPrefix) Execute(caller corevm.ContractRef, contractAddr common.Address, input []byte, env cpcExecutorEnv) (ret []byte, err error)
+//@   modifies nothing
+//@   ensures[C12.ro_world_unchanged] (bankBal == old(bankBal) && bankSupply == old(bankSupply) && authVersion == old(authVersion) && evlog == old(evlog) && kvHas == old(kvHas) && kvVal == old(kvVal) && acctSeq == old(acctSeq) && acctExists == old(acctExists) && stakingVersion == old(stakingVersion) && distVersion == old(distVersion) && sdbLogCount == old(sdbLogCount) && sdbLogAddr == old(sdbLogAddr) && sdbLogNTopics == old(sdbLogNTopics) && sdbLogT0 == old(sdbLogT0) && sdbLogT1 == old(sdbLogT1) && sdbLogT2 == old(sdbLogT2) && sdbLogT3 == old(sdbLogT3) && sdbLogData == old(sdbLogData))
+
+//@ func (e bech32CustomPrecompiledContractRoAccountPubPrefix) Execute(caller corevm.ContractRef, contractAddr common.Address, input []byte, env cpcExecutorEnv) (ret []byte, err error)
+//@   modifies nothing
+//@   ensures[C12.ro_world_unchanged] (bankBal == old(bankBal) && bankSupply == old(bankSupply) && authVersion == old(authVersion) && evlog == old(evlog) && kvHas == old(kvHas) && kvVal == old(kvVal) && acctSeq == old(acctSeq) && acctExists == old(acctExists) && stakingVersion == old(stakingVersion) && distVersion == old(distVersion) && sdbLogCount == old(sdbLogCount) && sdbLogAddr == old(sdbLogAddr) && sdbLogNTopics == old(sdbLogNTopics) && sdbLogT0 == old(sdbLogT0) && sdbLogT1 == old(sdbLogT1) && sdbLogT2 == old(sdbLogT2) && sdbLogT3 == old(sdbLogT3) && sdbLogData == old(sdbLogData))
+
+//@ func (e bech32CustomPrecompiledContractRoValidatorPubPrefix) Execute(caller corevm.ContractRef, contractAddr common.Address, input []byte, env cpcExecutorEnv) (ret []byte, err error)
+//@   modifies nothing
+//@   ensures[C12.ro_world_unchanged] (bankBal == old(bankBal) && bankSupply == old(bankSupply) && authVersion == old(authVersion) && evlog == old(evlog) && kvHas == old(kvHas) && kvVal == old(kvVal) && acctSeq == old(acctSeq) && acctExists == old(acctExists) && stakingVersion == old(stakingVersion) && distVersion == old(distVersion) && sdbLogCount == old(sdbLogCount) && sdbLogAddr == old(sdbLogAddr) && sdbLogNTopics == old(sdbLogNTopics) && sdbLogT0 == old(sdbLogT0) && sdbLogT1 == old(sdbLogT1) && sdbLogT2 == old(sdbLogT2) && sdbLogT3 == old(sdbLogT3) && sdbLogData == old(sdbLogData))
+
+//@ func (e bech32CustomPrecompiledContractRoConsensusPubPrefix) Execute(caller corevm.ContractRef, contractAddr common.Address, input []byte, env cpcExecutorEnv) (ret []byte, err error)
+//@   modifies nothing
+//@   ensures[C12.ro_world_unchanged] (bankBal == old(bankBal) && bankSupply == old(bankSupply) && authVersion == old(authVersion) && evlog == old(evlog) && kvHas == old(kvHas) && kvVal == old(kvVal) && acctSeq == old(acctSeq) && acctExists == old(acctExists) && stakingVersion == old(stakingVersion) && distVersion == old(distVersion) && sdbLogCount == old(sdbLogCount) && sdbLogAddr == old(sdbLogAddr) && sdbLogNTopics == old(sdbLogNTopics) && sdbLogT0 == old(sdbLogT0) && sdbLogT1 == old(sdbLogT1) && sdbLogT2 == old(sdbLogT2) && sdbLogT3 == old(sdbLogT3) && sdbLogData == old(sdbLogData))
+
